@@ -240,6 +240,7 @@ class Lysosome:
         recycled: dict[str, Any] = {}
         errors: list[str] = []
         disposed = 0
+        recycled_items = 0
 
         for waste in items_to_process:
             try:
@@ -248,16 +249,18 @@ class Lysosome:
 
                 if result:
                     recycled.update(result)
-                    self._total_recycled += 1
+                    recycled_items += 1
 
                 disposed += 1
-                self._total_digested += 1
 
             except Exception as e:
                 errors.append(f"Failed to digest {waste.waste_type.value}: {e}")
 
-        # Store recycled materials
-        self._recycling_bin.update(recycled)
+        # Store recycled materials and update counters under the lock shared with ingest/autophagy
+        with self._lock:
+            self._total_digested += disposed
+            self._total_recycled += recycled_items
+            self._recycling_bin.update(recycled)
 
         if not self.silent and disposed > 0:
             print(f"♻️ [Lysosome] Digested {disposed} items, recycled {len(recycled)} components")
